@@ -34,6 +34,11 @@ def gen(rnd):
     if rnd.random() < 0.1:
         sc['files'] = [(n, '') for n, _ in sc['files']]
         sc['rules'] = [([], 0)]
+    elif len(sc['files']) > 1 and rnd.random() < 0.2:
+        # one member of the set is empty from the start: it still gets its .orig
+        k = rnd.randrange(len(sc['files']))
+        sc['files'] = [(n, '' if i == k else c) for i, (n, c) in enumerate(sc['files'])]
+        sc['rules'] = [([a for a in atoms if a[1] != k], out) for atoms, out in sc['rules']] + [([], 0)]
     return sc
 
 
